@@ -339,10 +339,18 @@ func init() {
 			return err
 		}
 		hangs := 0
+		slow := 0
 		return e.each(func(i int, g *Rng) error {
-			if hangs >= 2 {
-				return nil // enough hanging cases to report; each further one costs 20 s
+			if hangs >= 2 || slow >= 8 {
+				return nil // enough hanging / crawling cases to report; each further one costs many seconds
 			}
+			t0 := time.Now()
+			defer func() {
+				// a case normally takes milliseconds; seconds mean that some step waited out one of its time limits
+				if time.Since(t0) > 1500*time.Millisecond {
+					slow++
+				}
+			}()
 			dir := filepath.Join(base, strconv.Itoa(i))
 			os.MkdirAll(dir, 0o755)
 			defer os.RemoveAll(dir)
